@@ -550,8 +550,13 @@ Definition glom_body (rec : recfn) (sc : scope) (t : val) (s : spec) : M (val * 
                                       | _ => unmodelled "m-side" end in
         let! l := side lhs in
         let! r := side rhs in
-        let! b := lift (m_compare op l r) in
-        if b then ret (t, own) else fail (simple_exn "MatchError"))
+        (* values that cannot be ordered (the comparison raises TypeError) do not match *)
+        match m_compare op l r with
+        | Ok true => ret (t, own)
+        | Ok false => fail (simple_exn "MatchError")
+        | Raise e => if String.eqb (ecls e) "TypeError" then fail (simple_exn "MatchError") else fail e
+        | Unmodelled u => unmodelled u
+        | OutOfFuel => fun st => (OutOfFuel, st) end)
   | SSwitch cases default =>
       glomit (fun own =>
         let! r := switch_loop fixed_chain rec own sc t cases in
@@ -573,7 +578,12 @@ Definition glom_body (rec : recfn) (sc : scope) (t : val) (s : spec) : M (val * 
         else if bad_val && match default with Some _ => true | None => false end then dflt (ret (t, own))
         else
           (* validators: a False result with a default returns the default UNEVALUATED; a raising validator is an error *)
-          let! verr := validators_loop (match default with Some _ => true | None => false end) validators tv in
+          (* with no condition at all Check validates truthiness *)
+          let implicit := match types, vals, validators, inst_of with [], [], [], [] => true | _, _, _, _ => false end in
+          let! verr := (if implicit
+                        then (if truthy tv then ret None
+                              else ret (Some (match default with Some _ => true | None => false end)))
+                        else validators_loop (match default with Some _ => true | None => false end) validators tv) in
           match verr with
           | Some true => match default with
                          | Some (SLit d) => ret (d, own) | Some (SStr d) => ret (VStr d, own)
